@@ -122,12 +122,15 @@ Theorem C05_packets_all_total : forall fuel l bs, (length bs <= fuel)%nat ->
 Proof. exact PacketProofs.packets_all_total. Qed.
 
 (* Initial / 0-RTT / Handshake headers (those with a Length field) round-trip: header fields,
-   token, and a Length equal to the size of the body; what follows the packet is left untouched.
-   _partial: Version Negotiation, Retry and short headers (which end the datagram) are covered
-   by correspondence only *)
-Theorem C05_header_roundtrip_partial : forall l h body rest, wf_long h body = true ->
+   token, and a Length equal to the size of the body; what follows the packet is left untouched *)
+Theorem C05_header_roundtrip_long : forall l h body rest, wf_long h body = true ->
   pdecode l (hencode h body ++ rest) = Some (h, rest).
 Proof. exact PacketProofs.long_header_roundtrip. Qed.
+
+(* short-header, Version Negotiation and Retry packets round-trip and end the datagram *)
+Theorem C05_header_roundtrip_end : forall l h body, wf_end l h = true ->
+  pdecode l (hencode h body) = Some (h, []).
+Proof. exact PacketProofs.end_header_roundtrip. Qed.
 
 (* the n bytes of a truncated packet number carry exactly its 8n low-order bits *)
 Theorem C05_pn_bytes_value : forall n pn, pn_value (pn_bytes n pn) = pn mod 256 ^ N.of_nat n.
@@ -169,7 +172,8 @@ Print Assumptions C05_frames_judge_model.
 Print Assumptions C05_frames_judge_sound.
 Print Assumptions C05_packet_progress.
 Print Assumptions C05_packets_all_total.
-Print Assumptions C05_header_roundtrip_partial.
+Print Assumptions C05_header_roundtrip_long.
+Print Assumptions C05_header_roundtrip_end.
 Print Assumptions C05_pn_bytes_value.
 Print Assumptions C05_packets_judge_model.
 Print Assumptions C05_packets_judge_sound.
